@@ -22,6 +22,20 @@ Theorem C07_multi_local_refuted_before_fix_and_fixed :
 Proof. exact multi_local_witness. Qed.
 Print Assumptions C07_multi_local_refuted_before_fix_and_fixed.
 
+(* unvisited_local_surplus, FIXED (fixes/C20-local-surplus.diff).  `local c = 5` / `local d = 1, 2, c, u`: the code before
+   the repair (model variant Scope.before_surplus) stopped analysing the initialisers after the first one beyond the
+   names: c - read only in the third value - was reported "declared and not used" (type 4 at line 1, columns 6-7) and the
+   undefined global u of the fourth value was not reported; the reference binder demands exactly one diagnostic, type 2
+   for u (line 2, columns 19-20) - and the code now in /repo reports exactly that. *)
+Theorem C07_local_surplus_refuted_before_fix_and_fixed :
+  forall gbk, exists b,
+    parse_file gbk w_surplus = PFile b /\ in_fragment b = true /\ pos_clean b = true /\
+    go_diags_fx demo_cfg Scope.before_surplus b [] = [(4, L 1 6 1 7)] /\
+    spec_diags demo_cfg b [] = [(2, L 2 19 2 20)] /\
+    go_diags demo_cfg b [] = [(2, L 2 19 2 20)].
+Proof. exact surplus_witness. Qed.
+Print Assumptions C07_local_surplus_refuted_before_fix_and_fixed.
+
 (* a long comment on the line restarts the lexer's column count (C04 finding): the later read of `bbbb` gets a column
    smaller than its declaration, IsCorrectPosition rejects the declaration: the read is reported undefined (type 2) and the
    declaration unused (type 4), although the read binds to it *)
